@@ -31,6 +31,9 @@ def planner_prop(props_files, finding_props, diff_fields=None, level="proof", **
 
 PROPS = {
     "C01": planner_prop(["Props/C01.v"], ["C01"], diff_fields={1}),
+    "C02": planner_prop(["Props/C02.v"], ["C02"], diff_fields={1}),
+    "C03": planner_prop(["Props/C03.v"], ["C03"], diff_fields={1}),
+    "C05": planner_prop(["Props/C05.v"], ["C05"], diff_fields={1}),
 }
 
 FAMS_QUICK = "table:120,rv:10,so2:6,so3:6,se2:6,se3:5,css:5"
@@ -58,6 +61,9 @@ def stages(pid, tier, seed, replay):
 
 PLANNER_STAGE_FLAGS = {
     "C01": [("planners", [])],
+    "C02": [("planners+histories", ["--misuse"])],
+    "C03": [("planners", [])],
+    "C05": [("planners", [])],
 }
 
 
